@@ -170,12 +170,12 @@ func Run(c *core.Ctx) core.FinishOpts {
 	// (3) typed grammar with edge literals
 	g := newGen(c.Rng("grammar"))
 	var grammarQ []string
-	for i := 0; i < c.Pick(350, 14000); i++ {
+	for i := 0; i < c.Pick(350, 4000); i++ {
 		q := g.query()
 		grammarQ = append(grammarQ, q)
 		add("grammar", "", q, nil, nil)
 	}
-	for i := 0; i < c.Pick(80, 2500); i++ {
+	for i := 0; i < c.Pick(80, 700); i++ {
 		q := g.tvfQuery()
 		grammarQ = append(grammarQ, q)
 		add("tvf", "", q, nil, nil)
@@ -193,7 +193,7 @@ func Run(c *core.Ctx) core.FinishOpts {
 	for _, s := range seeds {
 		donors = append(donors, s.sql)
 	}
-	nMut := c.Pick(600, 26000)
+	nMut := c.Pick(600, 6000)
 	for i := 0; i < nMut; i++ {
 		var s *qcase
 		if i%4 == 0 && len(scen) > 0 {
@@ -208,7 +208,7 @@ func Run(c *core.Ctx) core.FinishOpts {
 
 	// (5) option mutation
 	orng := c.Rng("options")
-	for i := 0; i < c.Pick(250, 6000); i++ {
+	for i := 0; i < c.Pick(250, 1200); i++ {
 		s := seeds[orng.Intn(len(seeds))]
 		sql := s.sql
 		var flags []string
@@ -450,7 +450,7 @@ func Run(c *core.Ctx) core.FinishOpts {
 		Rule: "cases = fixed probes + function/aggregate table sweep (each argument at each edge value) + typed-grammar queries + token mutations " +
 			"(delete, duplicate, swap, literal->edge value, token replace/insert, clause transplant) of all of those and of tests/scenarios/**/*.in + option mutation + hostile inputs x templates x modes; " +
 			"non-trivial = accepted by the SQL parser (typechecker, optimizer or executor ran) or crashed; distinct by (query text, flags)",
-		Floor:       c.Pick(900, 20000),
+		Floor:       c.Pick(900, 10000),
 		Assumptions: []string{"a Go panic or fatal error always shows as exit status 2 / signal with a trace on stderr (cli.Result.Panicked)", "children that hit the memory, time or output cap are inconclusive"},
 	}
 }
